@@ -1,6 +1,7 @@
 package drv
 
 import (
+	"fmt"
 	"strings"
 
 	"verif/harness/vdisk"
@@ -371,6 +372,9 @@ var Probes = []Probe{
 		p.Rename(a, "h", b, "h") // stale source directory
 		p.Lookup(a2, "h")
 		p.Rename(a, "h", a, "h2") // same stale handle twice
+		p.Rename(a2, "h", a, "h3") // live source directory, stale target directory of the same inode number
+		p.Rename(a, "h", a2, "h4") // the other way round
+		p.Lookup(a2, "h")
 		p.Tail()
 	}},
 	{"stale-handles-in-every-procedure", []string{"C08"}, 0, func(p *P) {
@@ -459,6 +463,109 @@ var Probes = []Probe{
 }
 
 func init() {
+	Probes = append(Probes, Probe{"free-files-of-about-one-transaction", []string{"C05", "C04"}, 16000, func(p *P) {
+		// removing / truncating a file whose freeing just about fills one journal transaction
+		const B = 4096
+		for _, nb := range []int{495, 503, 505, 507, 509, 511, 520} {
+			f := p.Create(p.Root, "f").RFh
+			for off := 0; off < nb; off += 400 {
+				n := nb - off
+				if n > 400 {
+					n = 400
+				}
+				p.Write(f, off*B, n*B, 2)
+			}
+			if nb%2 == 1 {
+				p.Remove(p.Root, "f")
+			} else {
+				p.Trunc(f, 0)
+				p.Remove(p.Root, "f")
+			}
+			p.S.WaitIdle()
+			p.T.Emit(TakeSnap(p.S, "run", true))
+		}
+		p.Tail()
+	}})
+	Probes = append(Probes, Probe{"remove-while-truncation-is-in-progress", []string{"C05", "C12", "C04"}, 16000, func(p *P) {
+		const B = 4096
+		for round := 0; round < 3; round++ {
+			f := p.Create(p.Root, "big").RFh
+			for off := 0; off < 1500; off += 450 {
+				p.Write(f, off*B, 450*B, 2)
+			}
+			p.Trunc(f, []int{0, 100, 3 * B}[round]) // handed to the background shrinker
+			p.Remove(p.Root, "big")                  // while it runs
+			g := p.Create(p.Root, "g").RFh           // may reuse the inode number
+			p.Write(g, 5000, 100, 2)
+			p.Trunc(g, 20*B)
+			p.Read(g, 0, 16*B)
+			p.Remove(p.Root, "g")
+			p.S.WaitIdle()
+			p.T.Emit(TakeSnap(p.S, "run", true))
+		}
+		p.Tail()
+	}})
+	Probes = append(Probes, Probe{"remove-procedure-on-empty-directories", []string{"C05", "C04", "C08"}, 0, func(p *P) {
+		d := p.Mkdir(p.Root, "p").RFh
+		p.Mkdir(d, "c1")
+		p.Mkdir(d, "c2")
+		p.Remove(d, "c1") // REMOVE (not RMDIR) of an empty directory: the server may accept it
+		p.Rmdir(d, "c2")
+		p.Remove(p.Root, "p")
+		p.Getattr(d)
+		e := p.Mkdir(p.Root, "q").RFh
+		p.Mkdir(e, "c")
+		p.Remove(e, "c")
+		p.Rmdir(p.Root, "q")
+		p.Getattr(e)
+		p.Tail()
+	}})
+	Probes = append(Probes, Probe{"transaction-larger-than-the-journal", []string{"C09", "C10"}, 0, func(p *P) {
+		// a request that dirties more blocks than one journal transaction holds is refused at commit: no trace may remain
+		p.Symlink(p.Root, "huge", strings.Repeat("t", 2200000))
+		p.Lookup(p.Root, "huge")
+		p.Create(p.Root, "huge")
+		p.Remove(p.Root, "huge")
+		p.Symlink(p.Root, "huge2", strings.Repeat("t", 2100000))
+		p.Lookup(p.Root, "huge2")
+		p.Enumerate(p.Root, false, 4096, 5)
+		p.Dump()
+		p.S.WaitIdle()
+		p.T.Emit(TakeSnap(p.S, "run", true))
+		p.Restart()
+		p.Lookup(p.Root, "huge2")
+		p.Tail()
+	}})
+	Probes = append(Probes, Probe{"directory-of-several-blocks-after-restart", []string{"C02", "C04", "C10", "C13"}, 0, func(p *P) {
+		d := p.Mkdir(p.Root, "d").RFh
+		for i := 0; i < 75; i++ {
+			p.Create(d, fmt.Sprintf("n%02d", i))
+		}
+		p.Mkdir(d, "sub")
+		p.Restart() // name caches are rebuilt from the disk
+		for _, i := range []int{70, 33, 31, 32, 64, 0, 74} {
+			p.Remove(d, fmt.Sprintf("n%02d", i))
+			p.Lookup(d, fmt.Sprintf("n%02d", i))
+		}
+		p.Rename(d, "n40", d, "n41")
+		p.Rename(d, "n66", p.Root, "moved")
+		p.Rmdir(d, "sub")
+		p.Create(d, "new1")
+		p.Lookup(d, ".")
+		p.Lookup(d, "..")
+		p.Enumerate(d, false, 1000, 20)
+		p.Enumerate(d, true, 700, 20)
+		p.Tail()
+		// the same through cache eviction: touch more inodes than the inode cache holds
+		for i := 0; i < 110; i++ {
+			p.Create(p.Root, fmt.Sprintf("e%03d", i))
+		}
+		for _, i := range []int{45, 34, 71} {
+			p.Remove(d, fmt.Sprintf("n%02d", i))
+			p.Lookup(d, fmt.Sprintf("n%02d", i))
+		}
+		p.Tail()
+	}})
 	Probes = append(Probes, Probe{"read-beyond-rtmax", []string{"C11", "C19"}, 0, func(p *P) {
 		f := p.Create(p.Root, "f").RFh
 		p.Write(f, 0, 300000, 2)
